@@ -853,6 +853,22 @@ func TestCheck(t *testing.T) {
 		c.FP(vk.Hash64("hammer", i%8), st["hammer_channels"] > 0)
 		c.End()
 	}
+	// withdrawal while a peer is busy
+	nc := r.Env.N(48, 2000)
+	cb := hb + nh
+	for k := 0; k < nc; k++ {
+		i := cb + k
+		if !r.Mine(i) {
+			continue
+		}
+		c := r.Begin(i, map[string]any{"family": "congested-withdraw"})
+		st := congestedWithdraw(t, c, r.Env.Rng(i), k)
+		for kk, v := range st {
+			c.Count(kk, int64(v))
+		}
+		c.FP(vk.Hash64("cw", st["mailbox_fill"], st["blocks_outstanding_before_withdraw"] > 1, st["withdraw_with_full_mailbox"]), st["cancelled_after_withdraw"] > 0)
+		c.End()
+	}
 	_ = hash.Hash(nil)
 	r.Finish()
 }
